@@ -128,10 +128,10 @@ RefusedBase(r, s) ==
           \/ r.dot # "zero" /\ r.dot \in {WebPort, DnsPort}
           \/ r.https # "zero" /\ r.https = r.dot
           \/ r.doq # "zero" /\ r.doq = DnsPort
-          \* a port that is not already the configured one must be free
-          \/ r.https # s.disk.https /\ r.https \in Busy
-          \/ r.dot # s.disk.dot /\ r.dot \in Busy
-          \/ r.doq # s.disk.doq /\ r.doq \in Busy
+          \* a port that the server does not hold itself must be free (a port
+          \* taken by a foreign process is never held by the server, whatever
+          \* settings were stored while encryption was disabled)
+          \/ r.https \in Busy \/ r.dot \in Busy \/ r.doq \in Busy
 
 Refused400(r, s) == RefusedBase(r, s) \/ NoDNSLeft(r, s)
 
@@ -227,6 +227,9 @@ Shapes ==
      disablePlainOff |-> [NoMat EXCEPT !.enabled = FALSE, !.name = "", !.https = "zero", !.plain = "false"],
      disableMismatch |-> [B0 EXCEPT !.enabled = FALSE, !.key = "C"],
      disableCertOnly |-> [B0 EXCEPT !.enabled = FALSE, !.ksrc = "none", !.key = "none"],
+     \* ports are not looked at while encryption is disabled ...
+     disableBusyHttps |-> [B0 EXCEPT !.enabled = FALSE, !.https = "pb"],
+     disableBusyDoq   |-> [B0 EXCEPT !.enabled = FALSE, !.doq = "pb"],
      malformed   |-> [B0 EXCEPT !.json = FALSE]]
 
 ShapeNames == DOMAIN Shapes
